@@ -272,13 +272,17 @@ class DetPool:
 
 
 def catii_codes():
-    import catii.ccubes
-    import catii.ffuncs
-    import catii.xcubes
-    import catii.xfuncs
+    """Code objects of the cube / aggregate modules (every loaded pure-Python module of the package
+    except the index and file-format modules, whose bytecodes are not where tasks interleave)."""
+    import catii
+    import catii.ccubes  # noqa: F401
+    import catii.xcubes  # noqa: F401
 
     codes = []
-    for m in (catii.ccubes, catii.xcubes, catii.ffuncs, catii.xfuncs):
+    for m in monitors.catii_modules():
+        f = getattr(m, "__file__", "") or ""
+        if not f.endswith(".py") or m.__name__ in ("catii", "catii.iindexes", "catii.indxio"):
+            continue
         codes.extend(monitors.code_objects_of(m))
     return codes
 
